@@ -96,12 +96,77 @@ def imported_modules(ns, names):
     return mods
 
 
+# ------------------------------------------------------------------------------------------------ twins (coverage)
+PRIM_DOMAINS = ("vlsir.primitives", "hdl21.primitives", "hdl21.ideal")
+
+
+def value_kind(v):
+    k = v.WhichOneof("value")
+    if k == "prefixed":
+        return {"int64_value": "pre_i", "string_value": "pre_s", "double_value": "pre_d"}.get(v.prefixed.WhichOneof("number"), "pre_?")
+    return {"int64_value": "int", "double_value": "dbl", "string_value": "str", "literal": "lit"}.get(k, "?")
+
+
+def twin_pairs(pkg, cap=400):
+    """MEASURED on P with the live importer functions and live Python equality: pairs of instances (in import order) of the
+    same external module / primitive whose imported parameter dicts are equal as `tuple(params.items())` in Python although
+    their parameter lists differ in the package; and, per instance, pairs of parameters with Python-equal values whose
+    values differ in the package.  [scope, target, eq_hash, [[kind1, kind2] per differing parameter]]"""
+    from hdl21.proto.importing import import_parameters
+    groups, vtw = {}, 0
+    for mi, pm in enumerate(pkg.modules):
+        for ii, pi in enumerate(pm.instances):
+            if pi.module.WhichOneof("to") != "external":
+                continue
+            try:
+                d = import_parameters(pi.parameters)
+            except Exception:
+                continue
+            ser = [p.value.SerializeToString(deterministic=True) for p in pi.parameters]
+            vals = list(d.values())
+            if len(vals) == len(ser) and len(vals) <= 12:
+                for a in range(len(vals)):
+                    for b in range(a + 1, len(vals)):
+                        try:
+                            vtw += bool(ser[a] != ser[b] and vals[a] == vals[b])
+                        except Exception:
+                            pass
+            key = (pi.module.external.domain, pi.module.external.name, tuple(d))
+            groups.setdefault(key, []).append((mi, ii, d, ser, pi))
+    out = []
+    for key, members in groups.items():
+        for a in range(len(members)):
+            for b in range(a + 1, len(members)):
+                if len(out) >= cap:
+                    return out, vtw
+                A, B = members[a], members[b]
+                if A[3] == B[3]:
+                    continue
+                try:
+                    eq = tuple(A[2].items()) == tuple(B[2].items())
+                except Exception:
+                    continue
+                if not eq:
+                    continue
+                try:
+                    heq = hash(tuple(A[2].items())) == hash(tuple(B[2].items()))
+                except Exception:
+                    heq = False
+                kinds = [[value_kind(p.value), value_kind(q.value)] for p, q, x, y in zip(A[4].parameters, B[4].parameters, A[3], B[3]) if x != y]
+                out.append(["same_mod" if A[0] == B[0] else "cross_mod", "prim" if key[0] in PRIM_DOMAINS else "ext", bool(heq), kinds])
+    return out, vtw
+
+
 def roundtrip(pkg, tops=None):
     """P' = to_proto(the imported top-level modules).  `tops`: names of the modules P was exported from (in that order);
     default: the last module of P (a single-top export emits its top last)."""
     if tops is None:
         tops = [pkg.modules[-1].name] if len(pkg.modules) else []
     res = dict(p=pkg_json(pkg), tops=tops, q=None, stage=None, err=None, eq_msg=False, eq_bytes=False)
+    try:
+        res["twins"], res["vtwins"] = twin_pairs(pkg)
+    except Exception as e:           # measurement only: never decides a case
+        res["twins"], res["vtwins"] = [], 0
     try:
         ns = h.from_proto(pkg)
         mods = imported_modules(ns, tops)
@@ -199,6 +264,8 @@ def mk_value(v):
         return None
     if t == "int":
         return int(v[1])
+    if t == "bool":
+        return bool(v[1])
     if t == "float":
         return float.fromhex(v[1])
     if t == "str":
@@ -221,10 +288,12 @@ def mk_paramclass(name, fields):
 
 
 def from_insts(job):
-    """One module instantiating primitives and external modules with explicit parameter values.
+    """Modules instantiating primitives and external modules with explicit parameter values.
     job: {"name", "domain", "exts":[{"name","domain","spicetype","ports":[[n,w,dir]],"paramtype":"dict"|"class","fields":[..]}],
           "insts":[{"name","kind":"prim","prim":P,"params":[[k,v]]} | {"name","kind":"ext","ext":k,"params":[[k,v]]}],
-          "literals":[text], "wrap": bool}"""
+          "literals":[text], "wrap": bool}
+    or, for a hierarchy sharing the external modules, "mods":[{"name","insts":[..],"literals":[..],"uses":[indices of earlier
+    entries, instantiated in this one]}] (exported from the last entry, or from the entries listed in "tops")."""
     from vlsirtools import SpiceType
     exts = []
     for x in job.get("exts", []):
@@ -241,27 +310,37 @@ def from_insts(job):
         else:
             kw["paramtype"] = mk_paramclass(x["name"] + "Params", x["fields"])
         exts.append(h.ExternalModule(**kw))
-    m = mk_module(job, job["name"])
-    k = 0
-    for x in job["insts"]:
-        params = {p: mk_value(v) for p, v in x["params"]}
-        if x["kind"] == "prim":
-            call = getattr(h.primitives, x["prim"])(**params)
-        else:
-            e = exts[x["ext"]]
-            call = e(params) if e.paramtype is dict else e(**params)
-        conns = {}
-        for pname, port in call.ports.items():
-            s = m.add(h.Signal(name=f"n{k}", width=port.width))
-            k += 1
-            conns[pname] = s
-        m.add(call(**conns), name=x["name"])
-    for t in job.get("literals", []):
-        m.literals.append(h.Literal(t))
-    top = m
+    specs = job.get("mods") or [dict(name=job["name"], insts=job["insts"], literals=job.get("literals", []), uses=[])]
+    built = []
+    for spec in specs:
+        m = mk_module(job, spec["name"])
+        k = 0
+        for u in spec.get("uses", []):
+            m.add(built[u](), name=f"u{u}")
+        for x in spec["insts"]:
+            params = {p: mk_value(v) for p, v in x["params"]}
+            if x["kind"] == "prim":
+                call = getattr(h.primitives, x["prim"])(**params)
+            else:
+                e = exts[x["ext"]]
+                call = e(params) if e.paramtype is dict else e(**params)
+            conns = {}
+            for pname, port in call.ports.items():
+                s = m.add(h.Signal(name=f"n{k}", width=port.width))
+                k += 1
+                conns[pname] = s
+            m.add(call(**conns), name=x["name"])
+        for t in spec.get("literals", []):
+            m.literals.append(h.Literal(t))
+        built.append(m)
+    top = built[-1]
+    if job.get("tops"):
+        tops = [built[k] for k in job["tops"]]
+        pkg = h.to_proto(tops, domain=job.get("domain"))
+        return [(pkg, top_names(pkg, tops))]
     if job.get("wrap"):
-        top = mk_module(job, job["name"] + "Top")
-        top.add(m(), name="u")
+        top = mk_module(job, specs[-1]["name"] + "Top")
+        top.add(built[-1](), name="u")
     return [h.to_proto(top, domain=job.get("domain"))]
 
 
@@ -297,6 +376,42 @@ def live_enums(job):
     return rows
 
 
+def mk_pvalue(v):
+    """a vlsir.ParamValue from the JSON form pval_json produces"""
+    t = v[0]
+    if t == "int":
+        return vlsir.ParamValue(int64_value=v[1])
+    if t == "dbl":
+        return vlsir.ParamValue(double_value=float.fromhex(v[1]))
+    if t == "str":
+        return vlsir.ParamValue(string_value=v[1])
+    if t == "lit":
+        return vlsir.ParamValue(literal=v[1])
+    if t == "pre":
+        n = v[2]
+        kw = {"int": "int64_value", "str": "string_value"}[n[0]]
+        return vlsir.ParamValue(prefixed=vlsir.Prefixed(prefix=vlsir.SIPrefix.Value(v[1]), **{kw: n[1]}))
+    raise ValueError(v)
+
+
+def live_pyeq(job):
+    """Python `==` (0 False, 1 True, 2 raises) and hash agreement of the values the live importer makes of two package values."""
+    from hdl21.proto.importing import import_parameter_value
+    rows = []
+    for a, b in job["pairs"]:
+        x, y = import_parameter_value(mk_pvalue(a)), import_parameter_value(mk_pvalue(b))
+        try:
+            eq = 1 if x == y else 0
+        except Exception:
+            eq = 2
+        try:
+            heq = hash(x) == hash(y)
+        except Exception:
+            heq = False
+        rows.append([a, b, eq, bool(heq)])
+    return rows
+
+
 SOURCES = dict(design=from_design, example=from_examples, generator=from_generator, pdk=from_pdk, insts=from_insts)
 
 
@@ -316,6 +431,11 @@ def do_any(job):
     if job["source"] == "enums":
         try:
             return dict(rows=live_enums(job), err=None)
+        except Exception as e:
+            return dict(rows=[], err=exc_info(e))
+    if job["source"] == "pyeq":
+        try:
+            return dict(rows=live_pyeq(job), err=None)
         except Exception as e:
             return dict(rows=[], err=exc_info(e))
     if job["source"] == "names":
